@@ -4,6 +4,8 @@ import (
 	"flag"
 	"fmt"
 	"os"
+	"runtime/debug"
+	"runtime/pprof"
 	"sort"
 	"time"
 )
@@ -27,6 +29,13 @@ func main() {
 	if t := os.Getenv("VERIF_TIER"); t != "" && *tier == "" {
 		*tier = t
 	}
+	if pf := os.Getenv("GMSMCHECK_CPUPROFILE"); pf != "" {
+		if f, err := os.Create(pf); err == nil {
+			pprof.StartCPUProfile(f)
+			defer pprof.StopCPUProfile()
+		}
+	}
+	debug.SetGCPercent(800) // the prover allocates many short-lived rows; memory is not the constraint
 	start := time.Now()
 	var ids []string
 	if *prop == "all" {
@@ -88,5 +97,6 @@ func main() {
 			exit = 1
 		}
 	}
+	pprof.StopCPUProfile()
 	os.Exit(exit)
 }
